@@ -161,6 +161,38 @@ Theorem C30_read_after_write_same_request_merge_partial : forall rules req v ws 
 Proof. exact view_read_after_write_merge. Qed.
 Print Assumptions C30_read_after_write_same_request_merge_partial.
 
+(* Get of the SAME request returns v: after an accepted Set of v at req through any number of literal rules - the same
+   rules readable and writeable for req, no written storage path touched by a later write of the Set, the unmatched
+   suffixes pairwise different and none a prefix of another, v well-formed (unique keys) and the written parts free of
+   nulls - Get of req inside the transaction returns v itself. The tree-level core is prune_all_merge: if pruning pairwise
+   diverging suffixes one after the other uses the value up (the unused-branch check), merging their parts, last pruned
+   first, gives the value back (prune_merge: pruning a suffix and merging its part back are inverse).
+   Excluded shapes, and why: a rule matched in full together with rules below it (suffix [] is a prefix of every suffix;
+   the parts overlap) and nested/duplicate storage paths (the outer rule also returns the inner data:
+   C30_outer_returns_inner); suffixes with unfilled placeholders; nulls inside v (Get returns v with nulls stripped, the
+   null members having become Unsets - not proved); arrays. The model prunes in reverse namespace order; the Go code in
+   map order - for these suffix sets the tie shows no difference, order-independence itself is not proved. *)
+Theorem C30_read_after_write_same_request : forall rules req v ws lms t b,
+  set_writes rules req v = (ROk, ws) -> Forall is_set ws ->
+  matches readable rules req = matches writeable rules req ->
+  literal_matches (matches writeable rules req) = Some lms ->
+  (forall ws1 d ws2, ws = ws1 ++ d :: ws2 -> forall d', In d' ws2 -> is_prefix (fst d) (fst d') = false) ->
+  apply_deltas (tx_pristine t) (tx_deltas t) = Some b ->
+  wf_tree v = true ->
+  NoDup (map snd (sort_by snd lms)) ->
+  (forall s s', In s (map snd lms) -> In s' (map snd lms) -> s = s' \/ diverge s s' = true) ->
+  (forall m, In m lms -> strip (xval v m) = xval v m) ->
+  view_get rules (tx_get (add_deltas t ws)) req = VOk v.
+Proof. exact view_read_after_write_same_request. Qed.
+Print Assumptions C30_read_after_write_same_request.
+
+Theorem C30_merge_rebuilds_value : forall L cur, wf_tree cur = true -> pw_div L ->
+  (forall s, In s L -> value_at s cur <> None) ->
+  fold_left prune_step L (Some (Some cur)) = Some None ->
+  merge_all (map (fun s => nest s (xv cur s)) (rev L)) = Some (Some cur).
+Proof. exact prune_all_merge. Qed.
+Print Assumptions C30_merge_rebuilds_value.
+
 Theorem C30_outer_returns_inner : forall b p q x1 x2, p <> [] -> q <> [] -> x1 <> Null -> x2 <> Null ->
   exists b', apply_deltas b [(p, x1); (p ++ q, x2)] = Some b' /\
              bag_get p b' = BOk (tset q (strip x2) (Some (strip x1))) /\
@@ -263,4 +295,15 @@ Example ex_two_merge :
 Proof. reflexivity. Qed.
 Example ex_two_get :
   view_get ex_two (tx_get (add_deltas (mkTx [] []) (snd (set_writes ex_two [97] ex_two_v)))) [97] = VOk ex_two_v.
+Proof. reflexivity. Qed.
+
+(* the hypotheses of C30_read_after_write_same_request are satisfiable: the two-rule view above, three-level value *)
+Definition ex_three : list rule :=
+  [mkRule [Lit 97; Lit 98; Lit 99] [Lit 112] RW; mkRule [Lit 97; Lit 98; Lit 100] [Lit 113] RW; mkRule [Lit 97; Lit 101] [Lit 114] RW].
+Definition ex_three_v : tree := Obj [(98, Obj [(99, Atom 1%Z); (100, Obj [])]); (101, Atom 3%Z)].
+Example ex_three_unused_check :
+  fold_left prune_step (rev [[98; 99]; [98; 100]; [101]]) (Some (Some ex_three_v)) = Some None.
+Proof. reflexivity. Qed.
+Example ex_three_get :
+  view_get ex_three (tx_get (add_deltas (mkTx [] []) (snd (set_writes ex_three [97] ex_three_v)))) [97] = VOk ex_three_v.
 Proof. reflexivity. Qed.
